@@ -12,7 +12,8 @@
    - proof operators (crypto/merkle/proof_op.go ProofRuntime.VerifyValue / VerifyAbsence) and the
      configured KeyPathFunc are the relations [verify_value], [verify_absence], [key_path].
 
-   Six repairs are modelled as present (see /verif/fixes):
+   Seven repairs are modelled as present (see /verif/fixes; F58, in crypto/merkle KeyPath.String,
+   is described at the key-path functions below):
    - F11: BlockResults compares NewResults(TxsResults).Hash() with the next header's
      LastResultsHash (the unrepaired code hashed begin/end-block events into it and refused
      every honest answer);
@@ -141,6 +142,119 @@ Definition validate_page (pg : option Z) (per_page total : Z) : option Z :=
 
 Definition validate_skip_count (page per_page : Z) : Z :=
   let s := (page - 1) * per_page in if s <? 0 then 0 else s.
+
+(* ------------------------------------------------------------------ key paths
+   crypto/merkle/proof_key_path.go: KeyPath.String and KeyPathToKeys as functions on byte strings,
+   with the pieces of net/url (PathEscape / PathUnescape: escape, unescape, shouldEscape in mode
+   encodePathSegment) and encoding/hex (DecodeString, %X) they use.  Client.ABCIQueryWithOptions
+   builds a KeyPath from the store name and resp.Key, prints it with String, and
+   ProofOperators.Verify (proof_op.go) parses it back with KeyPathToKeys to compare every key with
+   the key of the matching proof operator: the proof binds the answer's key only if parsing
+   inverts printing.
+   Repair F58 is modelled as present: String writes a URL-encoded key that starts with "x:" as
+   "x%3A..." (the unrepaired code printed it verbatim and KeyPathToKeys then read it as a
+   hex-encoded key). *)
+Inductive kenc := EncURL | EncHex.
+Definition key := (bytes * kenc)%type.           (* merkle.Key{name, enc} *)
+
+Definition hexdig (d : N) : N := if (d <? 10)%N then (48 + d)%N else (55 + d)%N.   (* "0123456789ABCDEF" *)
+(* net/url ishex+unhex, encoding/hex fromHexChar: both cases accepted *)
+Definition unhexdig (c : N) : option N :=
+  if ((48 <=? c) && (c <=? 57))%N then Some (c - 48)%N
+  else if ((97 <=? c) && (c <=? 102))%N then Some (c - 87)%N
+  else if ((65 <=? c) && (c <=? 70))%N then Some (c - 55)%N
+  else None.
+
+(* fmt.Sprintf("%X", name) *)
+Fixpoint hex_encode (b : bytes) : bytes :=
+  match b with
+  | [] => []
+  | c :: r => hexdig (c / 16) :: hexdig (c mod 16) :: hex_encode r
+  end.
+(* hex.DecodeString: odd length or a character that is no hex digit is an error *)
+Fixpoint hex_decode (s : bytes) : option bytes :=
+  match s with
+  | [] => Some []
+  | a :: t => match t with
+              | [] => None
+              | b :: r => match unhexdig a, unhexdig b, hex_decode r with
+                          | Some x, Some y, Some d => Some ((16 * x + y)%N :: d)
+                          | _, _, _ => None
+                          end
+              end
+  end.
+
+Definition memN (c : N) (l : list N) : bool := existsb (N.eqb c) l.
+(* url.shouldEscape(c, encodePathSegment): letters, digits, "-_.~" and "$&+:=@" stay *)
+Definition should_escape (c : N) : bool :=
+  negb (((97 <=? c) && (c <=? 122))%N || ((65 <=? c) && (c <=? 90))%N || ((48 <=? c) && (c <=? 57))%N
+        || memN c [45; 95; 46; 126]%N || memN c [36; 38; 43; 58; 61; 64]%N).
+(* url.PathEscape *)
+Fixpoint path_escape (b : bytes) : bytes :=
+  match b with
+  | [] => []
+  | c :: r => if should_escape c then 37%N :: hexdig (c / 16) :: hexdig (c mod 16) :: path_escape r
+              else c :: path_escape r
+  end.
+(* url.PathUnescape: "%" must be followed by two hex digits; "+" stays "+" *)
+Fixpoint path_unescape (s : bytes) : option bytes :=
+  match s with
+  | [] => Some []
+  | c :: r =>
+    if (c =? 37)%N then
+      match r with
+      | a :: b :: t => match unhexdig a, unhexdig b with
+                       | Some x, Some y => option_map (cons (16 * x + y)%N) (path_unescape t)
+                       | _, _ => None
+                       end
+      | _ => None
+      end
+    else option_map (cons c) (path_unescape r)
+  end.
+
+(* strings.HasPrefix(s, "x:") *)
+Definition has_x_prefix (s : bytes) : bool :=
+  match s with a :: b :: _ => ((a =? 120) && (b =? 58))%N | _ => false end.
+
+(* one key of KeyPath.String, without the leading "/" *)
+Definition encode_key (k : key) : bytes :=
+  match snd k with
+  | EncHex => 120%N :: 58%N :: hex_encode (fst k)
+  | EncURL => let e := path_escape (fst k) in
+              if has_x_prefix e then 120%N :: 37%N :: 51%N :: 65%N :: skipn 2 e      (* fix F58 *)
+              else e
+  end.
+(* KeyPath.String *)
+Fixpoint kp_string (kp : list key) : bytes :=
+  match kp with
+  | [] => []
+  | k :: r => 47%N :: encode_key k ++ kp_string r
+  end.
+
+(* strings.Split(s, "/"): never empty *)
+Fixpoint split_slash (s : bytes) : list bytes :=
+  match s with
+  | [] => [[]]
+  | c :: r => let ps := split_slash r in
+              if (c =? 47)%N then [] :: ps
+              else match ps with p :: t => (c :: p) :: t | [] => [[c]] end
+  end.
+
+Definition decode_part (p : bytes) : option bytes :=
+  if has_x_prefix p then hex_decode (skipn 2 p) else path_unescape p.
+
+Fixpoint map_opt {A B} (f : A -> option B) (l : list A) : option (list B) :=
+  match l with
+  | [] => Some []
+  | x :: r => match f x, map_opt f r with Some y, Some t => Some (y :: t) | _, _ => None end
+  end.
+
+(* merkle.KeyPathToKeys; None = error *)
+Definition key_path_to_keys (path : bytes) : option (list bytes) :=
+  match path with
+  | c :: r => if (c =? 47)%N then map_opt decode_part (split_slash r) else None
+  | [] => None
+  end.
 
 Section Client.
 Variable H : bytes -> bytes.
